@@ -8,7 +8,10 @@ from props import PROPS, MANIFEST_TEXT, NOT_APPLICABLE  # noqa
 ids = ["C%02d" % i for i in range(1, 21)]
 checks = []
 for pid in ids:
-    if pid not in PROPS or pid in NOT_APPLICABLE:
+    if pid not in PROPS or pid in NOT_APPLICABLE or pid not in MANIFEST_TEXT:
+        continue
+    # claim a property only when its Lean module is in the tree
+    if not all(os.path.exists(os.path.join(ROOT, "lean", m.replace(".", "/") + ".lean")) for m in PROPS[pid]["lean_modules"]):
         continue
     t = MANIFEST_TEXT[pid]
     checks.append({
